@@ -46,8 +46,19 @@ def _sc3():
     if _S:
         return _S
     import warnings
+    import sys
     warnings.simplefilter('ignore')
     silence_sc3_logging()
+    _hook = sys.unraisablehook
+
+    def quiet(u):
+        # SynthDef.as_bytes keeps a memoryview of a BytesIO; when both die in
+        # one gc pass CPython prints "deallocated BytesIO object has exported
+        # buffers".  Harmless, and drivers must be quiet.
+        if isinstance(u.exc_value, SystemError) and 'BytesIO' in str(u.exc_value):
+            return
+        _hook(u)
+    sys.unraisablehook = quiet
     import sc3
     sc3.init('nrt')
     from sc3.base import main as _m
@@ -677,7 +688,8 @@ CHM_EXCLUDED = {
 MODE_PARAMS = {'clip': ('minmax', 'min', 'max', None),
                'type': ('minmax', 'min', 'max', None)}
 NUM_SHAPES = ('s', 'u', 'l2', 'l3', 'cl', 'lu', 'l1', 'n')
-CHM_RECV = ('r2', 'r1', 'r3', 'rcl')
+CHM_RECV = ('r2', 'r1', 'r3', 'rcl', 'rn', 'rn2')
+CHM_NESTED = ('rn', 'rn2')
 
 
 def _chm_methods():
@@ -734,12 +746,24 @@ def _chm_case(name, recv, rate, spec):
         return getattr(a[0], name)(**a[1])
 
     def ref_call(a):
-        # one expansion level by the law; the elements are whatever the same
-        # method returns for the element of the receiver (a unit generator, or
-        # an inner ChannelList) and the i-th (wrapped) elements of the lists.
+        # The law, recursively over the *receiver* (a nested list element of a
+        # channel list is again a channel list: "recursively for nested
+        # lists").  Each leaf is whatever the same method of the receiver's
+        # unit generator returns for the i-th (wrapped) elements of the list
+        # arguments - the real single-unit call, which may itself expand, or
+        # raise (then the case is undefined).
         keys = list(a[1].keys())
-        rows = E.one_level([a[0]] + [a[1][k] for k in keys])
-        return [getattr(r[0], name)(**dict(zip(keys, r[1:]))) for r in rows]
+
+        def rec(recv, vals):
+            rows = E.one_level([recv] + vals)
+            out = []
+            for r in rows:
+                if isinstance(r[0], list):
+                    out.append(rec(r[0], r[1:]))
+                else:
+                    out.append(getattr(r[0], name)(**dict(zip(keys, r[1:]))))
+            return out
+        return rec(a[0], [a[1][k] for k in keys])
     real = _observe(mkargs, real_call)
     ref = _observe(mkargs, ref_call)
     # poll hands its receiver back unchanged (a pass-through for chaining, as
@@ -821,7 +845,8 @@ def _chm_worker(job):
             for rate in rates:
                 if tier != 'thorough' and variant == 'grid' \
                         and (recv, rate) not in (('r2', 'kr'), ('r3', 'ar'),
-                                                 ('r1', 'kr'), ('rcl', 'kr')):
+                                                 ('r1', 'kr'), ('rcl', 'kr'),
+                                                 ('rn', 'kr'), ('rn2', 'ar')):
                     continue
                 st, what, obs, exp = _chm_case(name, recv, rate, spec)
                 n += 1
@@ -843,6 +868,11 @@ def _chm_worker(job):
                                 (p, k, v) for (p, k, v) in spec]
                         if _chm_case(name, recv, rate, full)[0] == 'viol':
                             d['variant'] = 'grid'
+                    if recv in CHM_NESTED and \
+                            _chm_case(name, 'r3', rate, spec)[0] != 'viol':
+                        # only the nested receiver fails, the flat one of the
+                        # same size does not
+                        d['variant'] = 'nested-list'
                     k = sum(1 for w in viols if w['variant'] == d['variant'])
                     if k < 3:
                         d.update(what=what, observed=obs, expected=exp)
@@ -854,6 +884,8 @@ def _report_chm(rep, v):
     key = 'C03.chlist-method:%s' % v['method']
     if v['variant'] == 'defaults':
         key += ':defaults'
+    elif v['variant'] == 'nested-list':
+        key = 'C03.chlist-method:nested-list'
     shown = ', '.join('%s=%s' % (p, 'omitted' if k == 'omit' else payload)
                       for (p, k, payload) in v['args'])
     rep.violation(
@@ -887,12 +919,13 @@ def check_chlist_methods(rep, pool):
         '%s (%s)' % kv for kv in sorted(CHM_EXCLUDED.items()))
         + '. poll/dpoll are always given an explicit label (the default label '
         'text of ChannelList.poll deliberately differs from UGen.poll).')
-    rep.note('chlist-methods: the law is applied one level at a time with the '
-             'real method on the elements; where that inner call raises (e.g. '
-             'UGen.range with a plain list: python lists have no arithmetic; a '
-             'plain nested list as receiver element has no such method) the '
-             'case is undefined and skipped, so deeper nesting is demanded '
-             'only where the single-unit method itself accepts lists.')
+    rep.note('chlist-methods: the law is applied recursively over the receiver '
+             '(nested list elements are channel lists again) and one level at a '
+             'time over the arguments, with the real single-unit method at the '
+             'leaves; where that leaf call raises (e.g. UGen.range given a plain '
+             'list: python lists have no arithmetic) the case is undefined and '
+             'skipped, so nested *arguments* are demanded only where the '
+             'single-unit method itself accepts lists.')
     if dead:
         rep.note('chlist-methods: no defined case (the single-unit method '
                  'raises for every input): ' + ', '.join(sorted(dead)))
